@@ -33,6 +33,9 @@ func genBoth(r *core.Rand, tier string) core.Case {
 	if r.Chance(map[bool]int{false: 3, true: 12}[tier == "thorough"]) {
 		return genLarge(r, tier)
 	}
+	if r.Chance(10) {
+		return genCopy(r, tier)
+	}
 	if r.Chance(45) {
 		return genSync(r, tier)
 	}
@@ -60,6 +63,11 @@ func corpusBoth() []core.Case {
 		core.Case{Lines: []string{"@ C10 ring 3", "push 1", "push 2", "pop", "push 3", "push 4", "init 2", "len", "cap", "isempty", "pop", "push 5", "push 6", "push 7", "pop", "init 0", "len"}},
 		// capacity rounding beyond 2^16 (a roundupPowOfTwo that smears only 16 bits is wrong from 2^17+1 on)
 		core.Case{Lines: []string{"@ C10 synccap", "cap 1", "cap 2", "cap 3", "cap 65537", "cap 131072", "cap 131073", "cap 196608", "cap 1048577", "cap 3145728", "cap 4194303", "cap 0", "cap 2147483649"}},
+		// struct copies: b := a; a.Init(n) — both must be independent FIFOs afterwards
+		core.Case{Lines: []string{"@ C10 syncC 4 2", "0 push 1", "0 push 2", "0 push 3", "0 pop", "copy 0 1", "0 init 4", "0 push 7", "0 push 8", "1 pop", "1 pop", "1 pop", "0 pop", "1 push 9", "0 len", "1 len", "0 dump", "1 dump"}, Tag: "copy"},
+		core.Case{Lines: []string{"@ C10 syncC 8 2", "0 push 1", "0 push 2", "copy 0 1", "1 init 3", "1 push 5", "0 pop", "1 pop", "0 pop", "0 len", "1 len"}, Tag: "copy"},
+		core.Case{Lines: []string{"@ C10 ringC 4 2", "0 push 1", "0 push 2", "0 push 3", "0 pop", "copy 0 1", "0 init 3", "0 push 7", "0 push 8", "1 pop", "1 pop", "1 pop", "0 pop", "1 push 9", "0 len", "1 len"}, Tag: "copy"},
+		core.Case{Lines: []string{"@ C10 ringC 3 3", "0 push 1", "0 push 2", "copy 0 1", "1 recap 5", "1 push 3", "0 push 4", "0 pop", "1 pop", "0 pop", "1 pop", "1 pop", "copy 1 0", "0 pushx 5", "1 pop"}, Tag: "copy"},
 		// large Ring: full ring of capacity 1024 rotated so that most of the content sits before head, then PushWithExpand
 		core.Case{Lines: []string{"@ C10 ringL 1024", "fill 1024 1", "drain 600", "fill 600 2000", "xfill 1 5000", "cap", "len", "drain 2000", "isempty"}, Tag: "large"},
 		core.Case{Lines: []string{"@ C10 ringL 4097", "fill 5000 1", "drain 4000", "fill 4000 9000", "recap 4096", "recap 4098", "xfill 3 20000", "cap", "len", "drain 9000"}, Tag: "large"},
@@ -177,6 +185,9 @@ func genSync(r *core.Rand, tier string) core.Case {
 }
 
 func implBoth(c core.Case) []string {
+	if copyKind(c) != "" {
+		return implCopy(c)
+	}
 	if isLarge(c) {
 		return implLarge(c)
 	}
@@ -190,6 +201,9 @@ func implBoth(c core.Case) []string {
 }
 
 func checkBoth(c core.Case, out []string) *core.Failure {
+	if copyKind(c) != "" {
+		return checkCopy(c, out)
+	}
 	if isLarge(c) {
 		return checkLarge(c, out)
 	}
@@ -203,6 +217,9 @@ func checkBoth(c core.Case, out []string) *core.Failure {
 }
 
 func classifyBoth(c core.Case, out []string) []string {
+	if copyKind(c) != "" {
+		return classifyCopy(c, out)
+	}
 	if isLarge(c) {
 		return classifyLarge(c, out)
 	}
